@@ -74,6 +74,10 @@ func buildOverlay(repo string, m Mutant) (map[string]string, error) {
 		if !ok {
 			b, err := os.ReadFile(filepath.Join(repo, e.File))
 			if err != nil {
+				if e.Find == "" && os.IsNotExist(err) {
+					ov[e.File] = e.Replace // a new file
+					continue
+				}
 				return nil, err
 			}
 			cur = string(b)
